@@ -22,7 +22,7 @@ def cmd_prove(a):
     sel = []
     for t, lst in reg.items():
         for i, c in enumerate(lst):
-            if a.pattern in c.ident or a.pattern in t:
+            if (c.ident == a.pattern) if getattr(a, "exact", False) else (a.pattern in c.ident or a.pattern in t):
                 if not c.assumed:
                     sel.append((t, i))
     res = prove.run(a.repo, sel, jobs=a.jobs, use_cache=not a.no_cache)
@@ -58,6 +58,7 @@ def main():
     p.add_argument("--no-cache", action="store_true")
     p.add_argument("--jobs", type=int, default=16)
     p.add_argument("-v", "--verbose", action="count", default=0)
+    p.add_argument("--exact", action="store_true", help="pattern is the exact contract ident")
     p = sub.add_parser("check")
     p.add_argument("prop")
     p.add_argument("--tier", default=os.environ.get("VERIF_TIER", "quick"))
